@@ -294,7 +294,8 @@ class QueryPlanner:
     def get_nested_selects_plan_fnc(self, main_integration, force=False):
         # returns function for traversal over query and inject fetch data query instead of subselects
         def find_selects(node, **kwargs):
-            if isinstance(node, Select):
+            # a set operation is one nested query: its operands are not replaced one by one
+            if isinstance(node, (Select, Union, Except, Intersect)):
                 query_info2 = self.get_query_info(node)
                 if force or (
                         len(query_info2['integrations']) > 1 or
